@@ -57,6 +57,10 @@ fn main() {
                 }
             }
         }
+        Some("longsym") => {
+            selftest::long_symbol_report();
+            0
+        }
         Some("list") => {
             for p in props::all() {
                 println!("{} {}", p.id(), p.level());
